@@ -9,7 +9,19 @@ tape-chosen pieces (net.cut with the layout offsets as preferred cut points).
 
 Three families: valid (round trip + extra bytes), truncated at a tape-chosen
 offset followed by noMoreData(), malformed (non-hex size line / chunk data not
-followed by CRLF / forbidden byte in an extension, at a tape-chosen chunk).
+followed by CRLF / forbidden byte in an extension / size line longer than the
+documented limit, at a tape-chosen chunk).
+
+Documented size limit: the public module setting twisted.web.http.maxChunkSizeLineLength
+is a per-run knob (left alone, raised or lowered; restored afterwards).  One size line of
+a message may be padded with a long (valid) chunk extension to a length just inside the
+limit in force, or anywhere between the default and the limit in force; the malformation
+"overlong" pads it to a length beyond the limit in force.
+
+Decoders are independent objects: in the malformed family the malformed stream and the
+valid stream it was derived from are fed, in a tape-chosen order, to several fresh
+decoders within the same run (each with its own segmentation) and every one of them is
+judged by the same clauses - a verdict must not depend on what an earlier decoder saw.
 
 Oracle: delivered data == original body (a prefix of it after every delivery);
 finishCallback exactly once with exactly the bytes that followed the end of the
@@ -17,7 +29,11 @@ message in that delivery; the same stream in one piece gives the same result;
 truncation before the last-chunk line is complete -> _DataLoss from noMoreData();
 a complete message -> noMoreData() does not raise; each malformation ->
 _MalformedChunkedDataError by the end of the stream, finish never called,
-delivered data a prefix of the body that precedes the malformation.
+delivered data a prefix of the body that precedes the malformation.  A size line whose
+length including its CRLF is at most the limit in force is inside the documented limits
+(round trip demanded); a size line whose length without CRLF exceeds the limit in force
+must be refused; lengths in between (the documentation does not say whether the CRLF
+counts) are not generated.
 """
 from twisted.web import http
 
@@ -28,9 +44,10 @@ from models import chunked as ck
 ID = "C22"
 ENGINE = "net"
 LEVEL = "exploration"
-TECHNIQUE = ("deterministic simulation: seeded chunk/extension/trailer grammar, byte-level malformations and truncation, "
-             "seeded segmentation into a real _ChunkedTransferDecoder vs the original chunk list")
-QUICK_RUNS = 60000
+TECHNIQUE = ("deterministic simulation: seeded chunk/extension/trailer grammar, byte-level malformations and truncation, size lines "
+             "near the (per-run) documented limit, seeded segmentation into several fresh real _ChunkedTransferDecoder objects per "
+             "run vs the original chunk list")
+QUICK_RUNS = 55000
 TWIN_P = 0.08   # this share of the runs drives two independent instances of the scenario one after the other (detsim.runner._run_scenario)
 BATCH = 200
 # RFC 9112 quoted-string allows quoted-pair ("\\" x) inside a chunk-ext-val; the decoder's
@@ -42,14 +59,24 @@ COMPONENTS = {
     "stub": ["delivery segmentation (detsim.net.cut)", "dataCallback/finishCallback recorders (HTTPChannel's role)"],
 }
 RULE = ("run = 0..5 chunks (sizes 1..3000, rarely 70000) encoded by toChunk or by the reference encoder with extensions/"
-        "trailers, + 0..30 extra bytes; family valid / truncated+noMoreData / malformed; delivered in tape-chosen pieces; "
-        "non-trivial = the stream was cut at least once")
+        "trailers, + 0..30 extra bytes; per-run knob http.maxChunkSizeLineLength (default / 1500..4096 / 64..300) and optionally one "
+        "size line padded by a long valid extension to just inside the limit in force or between the default and that limit; "
+        "family valid / truncated+noMoreData / malformed (nonhex, badext, nocrlf, overlong = line padded beyond the limit in "
+        "force); malformed family: 1..3 fresh decoders get the malformed stream, optionally the valid original in between or "
+        "before, each judged; delivered in tape-chosen pieces; non-trivial = the stream was cut at least once")
 ASSUMPTIONS = [
-    "size lines stay far below maxChunkSizeLineLength (1024) and trailers far below 64 KiB (the documented limits)",
+    "trailers stay far below 64 KiB (the documented limit); size lines are either <= limit-2 bytes (inside the documented "
+    "limit under every reading of 'length of the CRLF-terminated line') or >= limit+1 bytes (outside under every reading); "
+    "the two lengths in between are not generated",
+    "http.maxChunkSizeLineLength is set before any decoder of the run is built and not changed while one is alive",
     "after finishCallback the caller stops feeding the decoder (as HTTPChannel does), so 'extra bytes' are those that "
     "followed the end of the message within the same delivery",
     "no BWS between chunk-size and ';' is generated (the decoder rejects it; RFC 9112 tolerates it on receipt)",
 ]
+
+DEFAULT_LIMIT = http.maxChunkSizeLineLength      # documented module-level setting, as shipped
+STEP_CAP = 20000
+RECUT = ["whole", "one", "few", "edges"]      # segmentation styles for the further decoders of a run (the first gets every style)
 
 
 def gen_chunk(sim):
@@ -80,9 +107,39 @@ def gen_ext(sim):
     return out
 
 
-def gen_message(sim):
+def pad_ext(sim, n):
+    """A valid chunk extension of exactly n >= 5 bytes (long token name / token value / quoted string)."""
+    assert n >= 5
+    form = sim.draw_choice(["quoted", "name", "tokval"], "padform")
+    if form == "name":
+        return b";" + bytes([sim.draw_choice(list(b"xA9-_~"), "padchar")]) * (n - 1)
+    if form == "tokval":
+        return b";x=" + bytes([sim.draw_choice(list(b"xA9-_~"), "padchar")]) * (n - 3)
+    return b';x="' + bytes([sim.draw_choice(list(b"x ;=\t,~\xe9"), "padq")]) * (n - 5) + b'"'
+
+
+def long_target(sim, limit, base, inside):
+    """Length (without CRLF) for a padded size line whose unpadded length is `base`.
+    inside: <= limit-2 (with its CRLF the line is at most `limit` bytes: allowed under every reading of the documentation);
+    otherwise >= limit+1 (even without its CRLF the line is longer than `limit`: refused under every reading)."""
+    if inside:
+        hi = limit - 2
+        t = sim.draw_weighted([(hi - sim.draw_int(0, 40, "below"), 3),
+                               (sim.draw_int(min(hi, DEFAULT_LIMIT - 2), hi, "between"), 2),
+                               (sim.draw_int(50, hi, "anylong"), 1)], "longlen")
+        t = max(t, base + 5)
+        assert t <= hi, (t, hi)
+        return t
+    lo = limit + 1
+    t = sim.draw_weighted([(lo + sim.draw_int(0, 40, "above"), 3),
+                           (sim.draw_int(lo, max(lo, DEFAULT_LIMIT + 1), "between"), 2),
+                           (sim.draw_int(lo, 2 * limit + 100, "anyover"), 1)], "overlen")
+    return max(t, base + 5)
+
+
+def gen_message(sim, limit):
     chunks = [gen_chunk(sim) for _ in range(sim.draw_int(0, 5, "nchunks"))]
-    info = {"tochunk": False, "ext": False, "trailers": 0}
+    info = {"tochunk": False, "ext": False, "trailers": 0, "long": None}
     if sim.draw_bool(0.3, "toChunk"):
         info["tochunk"] = True
         wire0 = b"".join(b"".join(http.toChunk(c)) for c in chunks) + b"0\r\n\r\n"
@@ -95,6 +152,19 @@ def gen_message(sim):
     last_ext = gen_ext(sim)
     trailers = [sim.draw_choice([b"X-Sum: abc", b"Expires: 0", b"A:", b"Long-One: " + b"v" * 200, b"T: \tx y"], "trailer")
                 for _ in range(sim.draw_weighted([(0, 5), (1, 2), (2, 1)], "ntrailers"))]
+    if sim.draw_bool(0.1 if limit == DEFAULT_LIMIT else 0.4, "longline"):
+        # one size line padded by a long valid extension, still inside the limit in force
+        k = sim.draw_int(0, len(chunks), "longwhich")
+        base = len(sizes[k]) + len(exts[k]) if k < len(chunks) else len(last) + len(last_ext)
+        pad = pad_ext(sim, long_target(sim, limit, base, True) - base)
+        if k < len(chunks):
+            exts[k] += pad
+        else:
+            last_ext += pad
+        info["long"] = (k, base + len(pad))
+        sim.probe("long_line_inside_limit")
+        if base + len(pad) >= DEFAULT_LIMIT:
+            sim.probe("long_line_inside_raised_limit_beyond_default")
     info["ext"] = any(exts) or bool(last_ext)
     info["trailers"] = len(trailers)
     info["parts"] = (sizes, exts, last, last_ext, trailers)
@@ -102,14 +172,23 @@ def gen_message(sim):
     return chunks, wire, layout, info, wire
 
 
-def layout_bounds(layout):
+def layout_bounds(layout, limit=None):
     b = set()
+    starts = []
     for c in layout["chunks"]:
         for a in ("line", "data", "crlf"):
             b.update(c[a])
+        starts.append(c["line"])
     b.update(x for x in layout["last_line"] if x is not None)
+    starts.append(layout["last_line"])
     b.add(layout["last_line_end"])
     b.add(layout["end"])
+    if limit is not None:
+        # inside a long size line: the offsets where the buffered partial line reaches the limit in force / the default
+        for a, e in starts:
+            for lim in (limit, DEFAULT_LIMIT):
+                if e is not None and e - a > lim - 60:
+                    b.update(x for x in (a + lim, a + lim + 1) if x < e + 2)
     return sorted(b)
 
 
@@ -132,7 +211,7 @@ def feed(sim, pieces, body, tag):
     dec = http._ChunkedTransferDecoder(sink.on_data, sink.on_finish)
     checked = 0
     for i, p in enumerate(pieces):
-        sim.step(6000)
+        sim.step(STEP_CAP)
         try:
             dec.dataReceived(p)
         except Violation:
@@ -153,39 +232,71 @@ def short(b, n=60):
     return repr(b if len(b) <= n else b[:n // 2] + b"..." + b[-n // 2:])
 
 
+def judge_valid(sim, pieces, E, body, what, ctx):
+    """A complete valid message of E bytes (+ whatever follows it) delivered as `pieces` to a fresh decoder."""
+    sink, exc, idx, dec = feed(sim, pieces, body, what)
+    if exc is not None:
+        clause = "valid-rejected" if isinstance(exc, http._MalformedChunkedDataError) else "unexpected-exception"
+        sim.fail(clause, what if clause == "valid-rejected" else type(exc).__name__, lambda: "%r; %s" % (exc, ctx()))
+    sim.check("body-bytes", bytes(sink.data) == body, what, lambda: "delivered %s, body %s; %s" % (short(bytes(sink.data)), short(body), ctx()))
+    sim.check("finish-once", len(sink.finished) == 1, what, lambda: "finishCallback calls: %r; %s" % (sink.finished, ctx()))
+    start = sum(len(p) for p in pieces[:idx])
+    want_extra = pieces[idx][E - start:] if start < E <= start + len(pieces[idx]) else None
+    sim.check("finish-extra", want_extra is not None and sink.finished[0] == want_extra, what,
+              lambda: "finishCallback got %r, the delivery that completed the message carried %r after it; %s" % (
+                  sink.finished[0], want_extra, ctx()))
+    with sim.guard("complete-reported-as-loss", what):
+        dec.noMoreData()
+
+
+def judge_malformed(sim, pieces, want, kind, decisive, ctx):
+    """A stream whose first malformation is decided at offset `decisive`, delivered as `pieces` to a fresh decoder."""
+    sink, exc, idx, dec = feed(sim, pieces, want, kind)
+    if exc is not None and not isinstance(exc, http._MalformedChunkedDataError):
+        sim.fail("unexpected-exception", type(exc).__name__, lambda: "%r; %s" % (exc, ctx()))
+    sim.check("malformed-accepted", exc is not None and not sink.finished, kind,
+              lambda: "no _MalformedChunkedDataError (finished=%r, delivered %s); %s" % (sink.finished, short(bytes(sink.data)), ctx()))
+    if sum(len(p) for p in pieces[:idx]) >= decisive:
+        sim.probe("rejected_after_a_later_delivery")   # still a rejection: no verdict on promptness
+
+
 def run(sim):
+    limit = sim.draw_weighted([(DEFAULT_LIMIT, 12), (4096, 1), (2048, 1), (1500, 1), (300, 1), (100, 1), (64, 1)], "limit")
+    try:
+        if limit != DEFAULT_LIMIT:
+            http.maxChunkSizeLineLength = limit
+            sim.probe("limit_raised" if limit > DEFAULT_LIMIT else "limit_lowered")
+        _run(sim, limit)
+    finally:
+        http.maxChunkSizeLineLength = DEFAULT_LIMIT
+
+
+def cleanup(sim):
+    http.maxChunkSizeLineLength = DEFAULT_LIMIT
+
+
+def _run(sim, limit):
     family = sim.draw_weighted([("valid", 5), ("truncated", 3), ("malformed", 4)], "family")
-    chunks, wire, layout, info, ref_wire = gen_message(sim)
+    chunks, wire, layout, info, ref_wire = gen_message(sim, limit)
     body = b"".join(chunks)
     E = layout["end"]
     sim.config = {"family": family, "chunks": [len(c) for c in chunks], "tochunk": info["tochunk"], "ext": info["ext"],
-                  "trailers": info["trailers"]}
+                  "trailers": info["trailers"], "limit": limit, "long": info["long"]}
     if info["tochunk"]:
         sim.check("tochunk-format", wire == ref_wire, "toChunk",
                   lambda: "toChunk encoding %s differs from the reference encoding %s" % (short(wire), short(ref_wire)))
-    bounds = layout_bounds(layout)
-    what = "plain" if not (info["ext"] or info["trailers"]) else ("ext" if info["ext"] else "trailer")
+    bounds = layout_bounds(layout, limit)
+    what = "longline" if info["long"] else "plain" if not (info["ext"] or info["trailers"]) else ("ext" if info["ext"] else "trailer")
+    lim = "maxChunkSizeLineLength=%d%s" % (limit, "" if not info["long"] else ", size line %d is %d bytes long" % info["long"])
 
     if family == "valid":
         extra = sim.draw_bytes(sim.draw_int(0, 30, "extralen"), b"0\r\n5;GET /x")
         stream = wire + extra
         pieces = net.cut(sim, stream, None, bounds)
         sim.event("valid", short(wire), "extra", extra, "pieces", len(pieces))
-        ctx = lambda: "message %s (chunks %r) + extra %r in pieces of %r" % (short(wire, 120), [len(c) for c in chunks], extra,
-                                                                           [len(p) for p in pieces][:20])
-        sink, exc, idx, dec = feed(sim, pieces, body, what)
-        if exc is not None:
-            clause = "valid-rejected" if isinstance(exc, http._MalformedChunkedDataError) else "unexpected-exception"
-            sim.fail(clause, what if clause == "valid-rejected" else type(exc).__name__, lambda: "%r; %s" % (exc, ctx()))
-        sim.check("body-bytes", bytes(sink.data) == body, what, lambda: "delivered %s, body %s; %s" % (short(bytes(sink.data)), short(body), ctx()))
-        sim.check("finish-once", len(sink.finished) == 1, what, lambda: "finishCallback calls: %r; %s" % (sink.finished, ctx()))
-        start = sum(len(p) for p in pieces[:idx])
-        want_extra = pieces[idx][E - start:] if start < E <= start + len(pieces[idx]) else None
-        sim.check("finish-extra", want_extra is not None and sink.finished[0] == want_extra, what,
-                  lambda: "finishCallback got %r, the delivery that completed the message carried %r after it; %s" % (
-                      sink.finished[0], want_extra, ctx()))
-        with sim.guard("complete-reported-as-loss", what):
-            dec.noMoreData()
+        ctx = lambda: "message %s (chunks %r) + extra %r in pieces of %r; %s" % (short(wire, 120), [len(c) for c in chunks], extra,
+                                                                               [len(p) for p in pieces][:20], lim)
+        judge_valid(sim, pieces, E, body, what, ctx)
         # the same stream in one piece
         sw, excw, _, _ = feed(sim, [stream], body, what)
         sim.check("whole-equals-split", excw is None and bytes(sw.data) == body and sw.finished == [extra], what,
@@ -200,8 +311,8 @@ def run(sim):
         pieces = net.cut(sim, stream, None, bounds)
         sim.fault("truncation")
         sim.event("truncated", short(wire), "at", t, "of", E, "pieces", len(pieces))
-        ctx = lambda: "message %s (chunks %r) truncated at %d of %d (last-chunk line ends at %d), pieces %r" % (
-            short(wire, 120), [len(c) for c in chunks], t, E, layout["last_line_end"], [len(p) for p in pieces][:20])
+        ctx = lambda: "message %s (chunks %r) truncated at %d of %d (last-chunk line ends at %d), pieces %r; %s" % (
+            short(wire, 120), [len(c) for c in chunks], t, E, layout["last_line_end"], [len(p) for p in pieces][:20], lim)
         sink, exc, idx, dec = feed(sim, pieces, body, what)
         if exc is not None:
             clause = "valid-rejected" if isinstance(exc, http._MalformedChunkedDataError) else "unexpected-exception"
@@ -223,7 +334,7 @@ def run(sim):
         sim.state(("truncated", what, len(chunks), t >= layout["last_line_end"]))
 
     else:
-        kinds = [("nonhex", 3), ("badext", 3)] + ([("nocrlf", 3)] if chunks else [])
+        kinds = [("nonhex", 3), ("badext", 3), ("overlong", 2)] + ([("nocrlf", 3)] if chunks else [])
         kind = sim.draw_weighted(kinds, "malformation")
         n = len(chunks)
         if info["tochunk"]:
@@ -231,6 +342,7 @@ def run(sim):
         else:
             parts = info["parts"]
         sizes, exts, last, last_ext, trailers = list(parts[0]), list(parts[1]), parts[2], parts[3], list(parts[4])
+        mbounds = list(bounds)
         if kind == "nocrlf":
             j = sim.draw_int(0, n - 1, "chunk")
             a, b = layout["chunks"][j]["crlf"]
@@ -247,7 +359,7 @@ def run(sim):
                 if not ext_here:
                     cands += [b"5 ", b"5\t"]
                 bad = sim.draw_choice(cands, "badsize")
-                desc = "size line %d is %r" % (j, bad + ext_here)
+                desc = "size line %d is %s" % (j, short(bad + ext_here))
                 if j < n:
                     sizes[j] = bad
                     stream, lay2 = ck.encode(chunks, sizes, exts, last, last_ext, trailers)
@@ -257,12 +369,12 @@ def run(sim):
                     s0 = layout["last_line"][0]
                     stream = ref_wire[:s0] + bad + ref_wire[s0 + len(last):]
                     decisive = s0 + len(bad) + len(last_ext) + 2
-            else:
+            elif kind == "badext":
                 ext_here = (exts[j] if j < n else last_ext) or b";a=b"
                 pos = sim.draw_int(1, len(ext_here), "extpos")
                 badbyte = bytes([sim.draw_choice(list(ck.EXT_FORBIDDEN), "badbyte")])
                 newext = ext_here[:pos] + badbyte + ext_here[pos:]
-                desc = "extension of line %d is %r" % (j, newext)
+                desc = "extension of line %d is %s" % (j, short(newext))
                 if j < n:
                     exts[j] = newext
                     stream, lay2 = ck.encode(chunks, sizes, exts, last, last_ext, trailers)
@@ -270,19 +382,58 @@ def run(sim):
                 else:
                     stream, lay2 = ck.encode(chunks, sizes, exts, last, newext, trailers)
                     decisive = lay2["last_line_end"]
+            else:
+                # a well-formed size line, padded by a valid extension beyond the limit in force
+                base = len(sizes[j]) + len(exts[j]) if j < n else len(last) + len(last_ext)
+                length = long_target(sim, limit, base, False)
+                pad = pad_ext(sim, length - base)
+                desc = "size line %d is %d bytes long (without its CRLF), maxChunkSizeLineLength is %d" % (j, length, limit)
+                if j < n:
+                    exts[j] += pad
+                    stream, lay2 = ck.encode(chunks, sizes, exts, last, last_ext, trailers)
+                    decisive = lay2["chunks"][j]["line"][1] + 2
+                else:
+                    stream, lay2 = ck.encode(chunks, sizes, exts, last, last_ext + pad, trailers)
+                    decisive = lay2["last_line_end"]
+                mbounds = layout_bounds(lay2, limit)
+                if length < DEFAULT_LIMIT:
+                    sim.probe("overlong_for_lowered_limit_below_default")
             want = b"".join(chunks[:j])
-        pieces = net.cut(sim, stream, None, bounds + [decisive, decisive - 2])
+        mbounds += [decisive, decisive - 2]
         sim.fault("malformed_" + kind)
-        sim.event("malformed", kind, desc, short(stream), "pieces", len(pieces))
-        ctx = lambda: "%s; stream %s (chunks %r) pieces %r" % (desc, short(stream, 160), [len(c) for c in chunks], [len(p) for p in pieces][:20])
-        sink, exc, idx, dec = feed(sim, pieces, want, kind)
-        if exc is not None and not isinstance(exc, http._MalformedChunkedDataError):
-            sim.fail("unexpected-exception", type(exc).__name__, lambda: "%r; %s" % (exc, ctx()))
-        sim.check("malformed-accepted", exc is not None and not sink.finished, kind,
-                  lambda: "no _MalformedChunkedDataError (finished=%r, delivered %s); %s" % (sink.finished, short(bytes(sink.data)), ctx()))
-        if sum(len(p) for p in pieces[:idx]) >= decisive:
-            sim.probe("rejected_after_a_later_delivery")   # still a rejection: no verdict on promptness
-        sim.state(("malformed", kind, len(chunks), j))
+        # Decoders are independent: the malformed stream goes to 1..3 fresh decoders of this run, the valid message it was
+        # derived from possibly to another one before or in between; every decoder is judged.
+        order = sim.draw_weighted([("M", 2), ("MM", 3), ("VM", 2), ("MVM", 1), ("MMM", 1), ("VMM", 1)], "decoders")
+        sim.event("malformed", kind, desc, short(stream), "decoders", order)
+        seen = ""
+        for which in order:
+            first = which not in seen
+            # own witness for every decoder after the first one of the run, naming what the earlier ones were given: a failure
+            # there, given that the clauses held for those, is a different finding (e.g. the same stream refused by one decoder
+            # and accepted by the next)
+            later = "/after-" + seen if seen else ""
+            if which == "M":
+                pieces_m = net.cut(sim, stream, None if first else sim.draw_choice(RECUT, "recut"), mbounds)
+                if first:
+                    pieces = pieces_m
+                else:
+                    sim.probe("same_malformed_stream_to_another_decoder")
+                if "V" in seen:
+                    sim.probe("malformed_after_its_valid_original")
+                ctx = lambda: "%s; stream %s (chunks %r) pieces %r; decoders of this run so far: %r (M = this stream, V = the valid " \
+                              "original); %s" % (desc, short(stream, 160), [len(c) for c in chunks], [len(p) for p in pieces_m][:20],
+                                                 seen, lim)
+                judge_malformed(sim, pieces_m, want, kind + later, decisive, ctx)
+            else:
+                pieces_v = net.cut(sim, ref_wire, sim.draw_choice(RECUT, "recut"), bounds)
+                if "M" in seen:
+                    sim.probe("valid_original_after_its_malformed_variant")
+                ctx = lambda: "valid message %s (chunks %r) pieces %r; decoders of this run so far: %r (M = the variant with %s, " \
+                              "V = this message); %s" % (short(ref_wire, 160), [len(c) for c in chunks], [len(p) for p in pieces_v][:20],
+                                                         seen, desc, lim)
+                judge_valid(sim, pieces_v, E, body, what + (later + "(" + kind + ")" if "M" in seen else later), ctx)
+            seen += which
+        sim.state(("malformed", kind, len(chunks), j, order))
     sim.nontrivial = len(pieces) > 1
 
 
@@ -300,5 +451,12 @@ MUTANTS = [
     "_dataReceived_CHUNK_LENGTH: do not reset self._start after consuming the size line : caught (finish-once, valid-rejected)",
     "_dataReceived_TRAILER: consume 'eolIndex + 1' instead of '+ 2' after a trailer line : caught (finish-once)",
     "_dataReceived_CRLF: startswith(b'\\r\\n') -> startswith(b'\\r') : caught (malformed-accepted:nocrlf, body-prefix:nocrlf)",
+    "limit read once: 'eolIndex >= maxChunkSizeLineLength' -> 'eolIndex >= 1024' (the module setting no longer honoured for complete lines) : caught (valid-rejected:longline with the limit raised, malformed-accepted:overlong with the limit lowered)",
+    "complete-line limit check removed ('eolIndex >= maxChunkSizeLineLength or (' -> 'False or (') : caught (malformed-accepted:overlong, body-prefix:overlong)",
+    "partial-line limit check 8 bytes too strict ('len(self._buffer) > maxChunkSizeLineLength - 8') : caught (valid-rejected:longline)",
+    "seeded C22-r4b (limit frozen into a class attribute at import) : caught (valid-rejected:longline, malformed-accepted:overlong, body-prefix:overlong)",
+    "seeded C22-r4a (module-level size-line cache filled before the extension check) : caught (malformed-accepted:badext/after-M, body-prefix:badext/after-M - the second decoder of a run accepts what the first refused)",
+    "module-level set of size texts seen with a valid extension, extension check skipped on a hit : caught (malformed-accepted:badext/after-V)",
+    "module-level negative cache keyed by size + first 3 extension bytes : exit 2 only (cross-run leakage in the warm workers is seen first and does not replay in a fresh interpreter; the in-run case needs the bad byte after those 3 bytes and shares its signature)",
     "INCLUDE_QUOTED_PAIR=True on the unchanged tree: C22:valid-rejected:ext (extension ;a=\"\\\"\" rejected: backslash missing from _chunkExtChars) - not enabled by default, see report",
 ]
